@@ -3,6 +3,7 @@
 From Coq Require Import List Arith Bool.
 Import ListNotations.
 From AM Require Import Model.Health Proofs.HealthLemmas.
+From AM Require Import Model.HealthIR Gen.HealthProg Proofs.HealthIRTie.
 From AM Require Gen.SyncMapLocks Proofs.SyncMapLemmas.
 
 (* For every sequence of registrations and ready-marks, at every point
@@ -69,3 +70,34 @@ Theorem C18_syncmap_unsafe_calls_hold_lock : forall site m b,
   In (site, m, b) Gen.SyncMapLocks.syncmap_unsafe_calls -> b = true.
 Proof. exact Proofs.SyncMapLemmas.syncmap_unsafe_calls_hold_lock. Qed.
 Print Assumptions C18_syncmap_unsafe_calls_hold_lock.
+
+(* ---------- the model is the interpretation of the source ----------
+   Gen/HealthProg.v is REGENERATED on every run by evaluating the AST of internal/health/health.go
+   (AddReadiness, OnReady, IsReady, GetReadyzStatusMap, readyzHandler, WaitForReady; constants and HTTP
+   status codes resolved from the sources; which GenericSyncMap method is called, and in which order,
+   is part of the generated data).  For ALL states: the generated AddReadiness / OnReady are [hstep];
+   the generated IsReady is [is_ready]; the generated status request answers [status_of] of the map as it
+   is at its second critical section, and consists of exactly the critical sections Len, Iterate (the
+   overall flag is computed inside that one Iterate: the shape [exec_req] and C18_snapshot rest on);
+   the generated WaitForReady loop is [wait_run]. *)
+Theorem C18_health_from_source :
+  (forall s o, run_method gen_IsReady (gen_method o) (op_name o) s = Some (hstep s o)) /\
+  (forall s, eval_is_ready gen_IsReady s = Some (is_ready s)) /\
+  (forall s, eval_status gen_IsReady gen_GetReadyzStatusMap gen_readyzHandler s = Some (status_of s)) /\
+  (forall interf s,
+     eval_request interf gen_IsReady gen_GetReadyzStatusMap gen_readyzHandler s =
+     Some (status_of (interf 1 (interf 0 s)), [SecLen; SecIter])) /\
+  secs_as_events [SecLen; SecIter] = Some [EvLen; EvIter] /\
+  (forall evs, eval_wait gen_IsReady gen_WaitForReady evs = Some (wait_run evs)).
+Proof. exact health_from_source. Qed.
+Print Assumptions C18_health_from_source.
+
+(* only these methods touch the readiness map, and the map methods they rely on have the assumed meaning *)
+Module C18MapUsers.
+Import Coq.Strings.String.
+Theorem C18_map_users_from_source :
+  gen_NewHealth = InitEmptyMap /\
+  gen_map_users = ["NewHealth"; "AddReadiness"; "OnReady"; "IsReady"; "GetReadyzStatusMap"]%string.
+Proof. exact map_users_from_source. Qed.
+Print Assumptions C18_map_users_from_source.
+End C18MapUsers.
